@@ -10,7 +10,7 @@ import warnings
 
 import apiharness
 
-LEAN_MODULES = ["PyAirtouch.Props.C04", "PyAirtouch.Props.C11At5"]
+LEAN_MODULES = ["PyAirtouch.Props.C04", "PyAirtouch.Props.C11At5", "PyAirtouch.Props.C11At4"]
 LEVEL = "proof"
 
 
